@@ -8,6 +8,7 @@ import (
 	"os"
 	"strconv"
 	"sync"
+	"sync/atomic"
 	"time"
 
 	"github.com/enfein/mieru/v3/pkg/protocol"
@@ -67,6 +68,8 @@ type SessResult struct {
 	TailExtra int64         `json:"tail_extra"`
 	DialErr   string        `json:"dial_err"`
 	MaxStall  time.Duration `json:"-"`
+	// DoneAfter: when all four loops of the session had ended, since the start of the transfer
+	DoneAfter time.Duration `json:"done_after_ns"`
 }
 
 // XferOpt tunes runTransfer.
@@ -138,6 +141,10 @@ func readLoop(c net.Conn, p *SessPlan, d int, res *SessResult, mu *sync.Mutex, o
 		if ps := p.ReadPause[d]; ps != nil && !paused && off >= ps.AfterBytes {
 			paused = true
 			time.Sleep(ps.Dur)
+			if progress != nil {
+				pauseEnded.Store(true) // the application's own pause is not a stall of the transport
+				progress()
+			}
 		}
 		b := make([]byte, sz)
 		n, err := c.Read(b)
@@ -224,11 +231,15 @@ func runTransfer(e *Env, cm *protocol.Mux, plans []*SessPlan, opt XferOpt) ([]*S
 	}
 	done := make(chan struct{})
 	var all sync.WaitGroup
+	xferStart := time.Now()
 	var lastProgress time.Time = time.Now()
 	var maxStall time.Duration
 	progress := func() {
 		mu.Lock()
 		now := time.Now()
+		if pauseEnded.CompareAndSwap(true, false) {
+			lastProgress = now
+		}
 		if s := now.Sub(lastProgress); s > maxStall {
 			maxStall = s
 		}
@@ -288,6 +299,9 @@ func runTransfer(e *Env, cm *protocol.Mux, plans []*SessPlan, opt XferOpt) ([]*S
 				}
 			}()
 			wg.Wait()
+			mu.Lock()
+			ls.res.DoneAfter = time.Since(xferStart)
+			mu.Unlock()
 			if opt.NoClose || p.CloseBy < 0 {
 				return
 			}
@@ -364,6 +378,9 @@ func runTransfer(e *Env, cm *protocol.Mux, plans []*SessPlan, opt XferOpt) ([]*S
 }
 
 var errIncomplete = errors.New("incomplete")
+
+// pauseEnded: set by a reader that has just finished a planned pause.
+var pauseEnded atomic.Bool
 
 // judgeStreams applies the exactly-once in-order oracle to results.
 // strict: the transfer must complete without any error (no faults injected
